@@ -57,6 +57,7 @@ package database
 //@   ensures_on_panic tx != nil ==> txstate(tx) == 2
 //@ func (*PostgresDB).Transaction
 //@   requires p != nil && !panicking()
+//@   param fn requires arg0 != nil
 //@   param fn maypanic
 //@   param fn modifies everything
 //@   param fn ensures txstate(arg0) == old(txstate(arg0))
@@ -76,6 +77,21 @@ package database
 
 // ORM statements run on the transaction carried by the context whenever there is one.
 //@ spec func ctxtx(ctx context.Context) *sql.Tx
+// ORM.Transaction never runs the callback itself: it runs inside a transaction opened for this call
+// (PostgresDB.Transaction, whose contract commits or rolls back exactly that one), on a context that
+// carries that transaction - a callback that fails is rolled back with everything it did
+//@ func context.WithValue
+//@   trusted
+//@   modifies nothing
+//@   ensures typeis(key, database.txContextKey) && typeis(val, *sql.Tx) ==> database.ctxtx(result) == val.(*sql.Tx)
+//@ func (*ORM).Transaction
+//@   requires o != nil && !panicking() && (typeis(o.db, *PostgresDB) ==> o.db.(*PostgresDB) != nil)
+//@   param fn requires false
+//@ func (*ORM).Transaction$1
+//@   requires tx != nil
+//@   param fn requires tx != nil && ctxtx(arg0) == tx
+//@   param fn maypanic
+//@   param fn modifies everything
 //@ func txFromContext
 //@   trusted
 //@   modifies nothing
